@@ -180,6 +180,26 @@ def special_cells():
     return _SPECIAL['cells']
 
 
+def odd_events():
+    """Events that sit at DIFFERENT positions (or in only one) of the parallel men's / women's tables of a
+    WMA data file, read from the tree under test: anything that remembers a row position across calls is
+    only wrong for these (2 of 75 today), so they are asked about far more often than 2/75."""
+    if 'odd' not in _SPECIAL:
+        odd = []
+        for fn in ('wma-data-2015.json', 'wma-data-2023.json'):
+            try:
+                with open(os.path.join(common.ATHLIB_DIR, 'wma', fn)) as f:
+                    d = json.load(f)
+                m = [r_[0] for r_ in d['m']]; w = [r_[0] for r_ in d['f']]
+                for e in m + w:
+                    if (e not in m or e not in w or m.index(e) != w.index(e)) and e not in odd:
+                        odd.append(e)
+            except Exception:
+                pass
+        _SPECIAL['odd'] = sorted(odd)
+    return _SPECIAL['odd']
+
+
 def numeric_arg(r, lo, hi):
     """A mark in every spelling callers use: rounded float, full-precision float, int, numeric string,
     string with many digits."""
@@ -211,6 +231,8 @@ def gen_call(rng, grp):
         g = r.choice(['m', 'f', 'm', 'f', 'M', 'F'])
         x = r.random()
         ev = r.choice(WMA_EVENTS) if x < 0.62 else r.choice(WMA_INTERP) if x < 0.95 else r.choice(['XYZ', '', '4X100'])
+        if x < 0.08 and odd_events():
+            ev = r.choice(odd_events())
         age = r.choice([r.randint(30, 100), r.randint(5, 110), r.choice([35, 40, 50, 62.5, 0, 101])])
         k = r.random()
         if k < 0.5:
@@ -526,6 +548,16 @@ def _gen_scenario(rng):
                 g = weighted(rng, GROUP_WEIGHTS) if mixed else grp
                 prog.append(pick_call(rng, g))
         programs.append(prog)
+    if nthreads == 3 and rng.random() < 0.25:
+        # A / B / A: two threads make the same call while a third makes a neighbouring one (the other gender,
+        # another key of the same memo) - the shape in which a value looks unchanged to a re-check although
+        # somebody replaced it and put it back in between
+        a_ = programs[0][0]
+        b_ = near_call(rng, a_) or programs[1][0]
+        order = [a_, b_, a_]
+        k_ = rng.randrange(3)
+        order = order[k_:] + order[:k_]
+        programs = [[cl] for cl in order]
     return {'variant': variant, 'programs': programs, 'group': grp if not mixed else 'mixed'}
 
 
@@ -615,6 +647,7 @@ class _Recorder(object):
         self.static = set()
         self.blines = set()
         self.opc = {}
+        self.opw = {}
     def glob(self, frame, event, arg):
         code = frame.f_code
         if code.co_filename.startswith(self.adir):
@@ -623,6 +656,8 @@ class _Recorder(object):
                 for ln, n in thrsched.op_counts(code).items():
                     if n > self.opc.get((code.co_filename, ln), 0):
                         self.opc[(code.co_filename, ln)] = n
+                for ln, ks in thrsched.op_after_writes(code).items():
+                    self.opw.setdefault((code.co_filename, ln), ks)
                 try:
                     for _, _, ln in code.co_lines():
                         if ln is not None:
@@ -669,7 +704,7 @@ def run_sequential(athlib, programs, order, epilogue=None):
         traces[t].extend(rec.cur)
         static[t] |= rec.static
     epi = run_epilogue(athlib, epilogue)
-    return outs, traces, (rec.wlines, static, rec.blines, epi, rec.opc)
+    return outs, traces, (rec.wlines, static, rec.blines, epi, (rec.opc, rec.opw))
 
 
 def run_schedule(athlib, programs, sched_spec, step_cap, record=False, epilogue=None):
@@ -731,12 +766,17 @@ def draw_op_schedule(rng, nthreads, traces, wlines, focus=None):
         if spec['preemptions']:
             break
     oc = getattr(wlines, 'opcounts', None) or {}
+    ow = getattr(wlines, 'opwrites', None) or {}
     some = False
     for i, p_ in enumerate(spec['preemptions']):
         if rng.random() < 0.8 or (not some and i == len(spec['preemptions']) - 1):
-            n = oc.get((os.path.join(common.ATHLIB_DIR, p_['file']), p_['line']), 3)
+            fk = (os.path.join(common.ATHLIB_DIR, p_['file']), p_['line'])
+            n = oc.get(fk, 3)
             if n >= 2:
-                p_['op'] = rng.randint(2, max(2, n))
+                aw = ow.get(fk)
+                # mostly right after a store or a call inside the line (two stores on one line publish a pair
+                # in two steps; a call on the line may have changed what the rest of the line assumes)
+                p_['op'] = rng.choice(aw) if (aw and rng.random() < 0.6) else rng.randint(2, max(2, n))
                 some = True
     spec['sampler'] = 'opcode'
     return spec
@@ -759,6 +799,19 @@ def _draw_schedule(rng, nthreads, traces, wlines, focus=None):
         tr = rng.choice(traces[t])
         if not tr:
             continue
+        if pre and rng.random() < 0.3:
+            # the same code region as the previous pre-emption (within 3 lines of it, in this thread's own
+            # execution): the windows of two threads that collide are mostly the same few lines
+            pf = os.path.join(common.ATHLIB_DIR, pre[-1]['file']); pl_ = pre[-1]['line']
+            cand = [j for j, k2 in enumerate(tr) if k2[0] == pf and abs(k2[1] - pl_) <= 3]
+            if cand:
+                i = rng.choice(cand)
+                key = tr[i]
+                occ = sum(1 for k2 in tr[:i + 1] if k2 == key)
+                others = [x for x in range(nthreads) if x != t]
+                pre.append({'thread': t, 'file': os.path.relpath(key[0], common.ATHLIB_DIR), 'line': key[1],
+                            'occ': occ, 'to': rng.choice(others)})
+                continue
         st = getattr(wlines, 'static', None)
         if focus and rng.random() < 0.5:
             # near the lines that differ from the baseline commit
@@ -862,6 +915,7 @@ class WLines(set):
     static = None
     branches = None
     opcounts = None
+    opwrites = None
 
 
 def oracle(athlib, programs, wall_cap=60.0, epilogue=None):
@@ -880,6 +934,7 @@ def oracle(athlib, programs, wall_cap=60.0, epilogue=None):
     static = [set() for _ in programs]
     blines = set()
     opcounts = {}
+    opwrites = {}
     norders = 0
     for order in linearizations(lens):
         def job(order=order):
@@ -887,9 +942,12 @@ def oracle(athlib, programs, wall_cap=60.0, epilogue=None):
             return run_sequential(athlib, programs, order, epilogue)
         outs, trs, (wl, st, bl, epi, opc) = common.fork_call(job, wall_cap=wall_cap, what='sequential oracle run')
         norders += 1
+        opc, opw = opc
         for k_, n_ in opc.items():
             if n_ > opcounts.get(k_, 0):
                 opcounts[k_] = n_
+        for k_, ks_ in opw.items():
+            opwrites.setdefault(k_, ks_)
         for j, o in enumerate(epi):
             accepted.epi[j].add(o)
         wlines |= wl
@@ -907,6 +965,7 @@ def oracle(athlib, programs, wall_cap=60.0, epilogue=None):
     wlines.static = [sorted(x) for x in static]
     wlines.branches = blines
     wlines.opcounts = opcounts
+    wlines.opwrites = opwrites
     return accepted, traces, wlines, norders
 
 
